@@ -39,9 +39,10 @@ impl Out {
         let msg = lines.next().unwrap_or("");
         // strip line:col and the absolute prefix of the path
         let file = loc.split(':').next().unwrap_or(loc);
-        let file = file
-            .rsplit_once("/repo/")
-            .map(|(_, f)| f)
+        let file = ["lalrpop/src/", "lalrpop-util/src/"]
+            .iter()
+            .filter_map(|m| file.rfind(m).map(|i| &file[i..]))
+            .next()
             .unwrap_or(file);
         Some(format!("{}/{}", file, normalise_msg(msg)))
     }
